@@ -60,8 +60,8 @@ func focusJudge(c *ProgCase, o Obs) (bool, string) {
 func init() {
 	// ------------------------------------------------------------------ C03
 	register("C03", func(r *Reporter) {
-		r.Cov["rule"] = "TLC enumerates the Shadow family of spec/Families.tla (fast/slow condition producer x 10 branch and jump kinds x every shadow of 1..2 instructions over register writes, stores, loads and jal x both branch outcomes by data); each case runs on MVP-4..8 x parallelism 1..4; the focus set (registers and bytes the shadow would write) must hold the sequential values and the run must not fail. Non-trivial = the branch is taken (the shadow is on the wrong path)"
-		runFamily(r, "C03", []famRun{famRunOf("Shadow", sizeForTier())}, cfgsFrom(4),
+		r.Cov["rule"] = "TLC enumerates the Shadow family of spec/Families.tla (fast/slow condition producer x 10 branch and jump kinds x every shadow of 1..2 instructions over register writes, stores, loads and jal x both branch outcomes by data); plus the Call family (a leaf function called from 2..3 sites returning through jalr, with an instruction after the jalr that is never on the path); each case runs on MVP-4..8 x parallelism 1..4; the focus set (registers and bytes the shadow would write) must hold the sequential values and the run must not fail. Non-trivial = the branch is taken (the shadow is on the wrong path)"
+		runFamily(r, "C03", []famRun{famRunOf("Shadow", sizeForTier()), famRunOf("Call", sizeForTier())}, cfgsFrom(4),
 			func(c *ProgCase) bool { return c.extraBool("taken") },
 			func(c *ProgCase, o Obs) (bool, string) {
 				if !c.extraBool("taken") {
@@ -89,9 +89,9 @@ func init() {
 	})
 	// ------------------------------------------------------------------ C05
 	register("C05", func(r *Reporter) {
-		r.Cov["rule"] = "TLC enumerates the MemWalk family (counted load/store/read-modify-write loops x byte/half/word x strides x counts x first offsets over an 8 KB memory, followed by a re-reading loop) so that more lines than every cache holds are touched and dirty lines are evicted; each case runs on MVP-3..8 x parallelism 1..4; the sum of the re-read values and the whole final memory must equal the sequential ones. Non-trivial = the walk touches more than 16 lines"
-		runFamily(r, "C05", []famRun{famRunOf("MemWalk", sizeForTier())}, cfgsFrom(3),
-			func(c *ProgCase) bool { return c.Exp.N > 100 },
+		r.Cov["rule"] = "TLC enumerates the MemWalk family (counted load/store/read-modify-write loops x byte/half/word x strides x counts x first offsets over an 8 KB memory, followed by a re-reading loop) so that more lines than every cache holds are touched and dirty lines are evicted; plus the LineFill family (two loads of one cold line at different offsets, then a dependent store that changes the line); each case runs on MVP-3..8 x parallelism 1..4; the sum of the re-read values and the whole final memory must equal the sequential ones. Non-trivial = the walk touches more than 16 lines"
+		runFamily(r, "C05", []famRun{famRunOf("MemWalk", sizeForTier()), famRunOf("LineFill", sizeForTier())}, cfgsFrom(3),
+			func(c *ProgCase) bool { return c.Exp.N > 100 || c.Fam == "LineFill" },
 			func(c *ProgCase, o Obs) (bool, string) { return true, o.Describe() })
 	})
 	// ------------------------------------------------------------------ C09
@@ -102,12 +102,12 @@ func init() {
 	// ------------------------------------------------------------------ C10
 	register("C10", func(r *Reporter) {
 		r.Cov["rule"] = "TLC enumerates the MemDep family (store->load, load->store, store->store pairs on overlapping byte/half/word, distance 1..3 (quick) / 4 (thorough), independent address registers holding the same address, three fillers, line warm or cold); each runs on MVP-4..8 x parallelism 1..4; the destination of the load and the 8 bytes around the conflicting addresses must hold the sequential values. All cases are non-trivial"
-		runFamily(r, "C10", []famRun{famRunOf("MemDep", sizeForTier())}, cfgsFrom(4), nil, focusJudge)
+		runFamily(r, "C10", []famRun{famRunOf("MemDep", sizeForTier()), famRunOf("LineFill", sizeForTier())}, cfgsFrom(4), nil, focusJudge)
 	})
 	// ------------------------------------------------------------------ C07
 	register("C07", func(r *Reporter) {
 		r.Cov["rule"] = "all program families (General, Shadow, RegDep, Tail, MemDep, MemWalk) plus the Err family (division/remainder by zero and undefined labels at depth 0..3) on all 33 configurations; plus the cache-controller rig schedules of C06 (pairs, triples, evictions, injected flushes) on MVP-7.0/7.1/8; verdict = the run exceeds its tick budget 8*309*(n+160+32p) (n = sequential instruction count), panics, blocks, or (Err) does not return an error value. Non-trivial = every case"
-		fams := []famRun{famRunOf("Err", sizeForTier()), famRunOf("Shadow", "small"), famRunOf("Tail", "small"), famRunOf("MemDep", "small"), famRunOf("RegDep", "small")}
+		fams := []famRun{famRunOf("Err", sizeForTier()), famRunOf("Shadow", "small"), famRunOf("Tail", "small"), famRunOf("MemDep", "small"), famRunOf("RegDep", "small"), famRunOf("Call", "small"), famRunOf("LineFill", "small")}
 		gr := generalRuns()
 		fams = append(fams, gr[0], gr[len(gr)-1])
 		if tier == "thorough" {
